@@ -565,8 +565,7 @@ def known_match(cls, fam):
 
 
 def write_replay(seed, n, build, plan_ops, ev, name):
-    os.makedirs(os.path.join(VERIF, "replays"), exist_ok=True)
-    path = os.path.join(VERIF, "replays", "C20-%d-%d.json" % (seed, n))
+    path = os.path.join(common.replay_dir(), "C20-%d-%d.json" % (seed, n))
     with open(path, "w", encoding="utf-8") as f:
         json.dump({"property": PROP, "seed": seed, "build": build,
                    "violation": {"class": ev["cls"], "op": name, "fault": ev.get("fault"), "detail": ev.get("detail", "")[-1200:]},
